@@ -319,8 +319,23 @@ impl Generator {
             start.elapsed()
         );
 
+        // names that a later, narrower request may ask for and get served from this cache
+        let known_builders = contexts
+            .builders()
+            .map(|builder| builder.name.clone())
+            .collect();
+        let known_apps = contexts
+            .modules()
+            .filter(|(_, module)| module.is_binary)
+            .filter(|(_, module)| match &self.mode {
+                GenerateMode::Local(start_dir) => module.relpath.as_ref().unwrap() == start_dir,
+                GenerateMode::Global => true,
+            })
+            .map(|(name, _)| name.clone())
+            .collect();
+
         let build_dir = self.build_dir.clone();
-        let result = GenerateResult::new(self, builds, treestate);
+        let result = GenerateResult::new(self, builds, treestate, known_builders, known_apps);
         result.to_cache(&build_dir)?;
         #[cfg(kaspar030_laze_verif)]
         crate::verif::fault("after_cache_write");
@@ -1119,6 +1134,8 @@ pub struct GenerateResult {
     cli_env_hash: u64,
     treestate: FileTreeState,
     partitioner: Option<String>,
+    known_builders: IndexSet<String>,
+    known_apps: IndexSet<String>,
 }
 
 impl GenerateResult {
@@ -1126,6 +1143,8 @@ impl GenerateResult {
         generator: Generator,
         build_infos: BuildInfoList,
         treestate: FileTreeState,
+        known_builders: IndexSet<String>,
+        known_apps: IndexSet<String>,
     ) -> GenerateResult {
         GenerateResult {
             mode: generator.mode,
@@ -1137,6 +1156,8 @@ impl GenerateResult {
             build_infos,
             treestate,
             partitioner: generator.partitioner,
+            known_builders,
+            known_apps,
         }
     }
 
@@ -1197,6 +1218,18 @@ impl TryFrom<&Generator> for GenerateResult {
         }
         if !res.apps.is_superset(&generator.apps) {
             return Err(anyhow!("apps don't match"));
+        }
+        // a wider selection (e.g. "all") is a superset of any name, including unknown ones.
+        // regenerating reports those.
+        if let Selector::Some(builders) = &generator.builders {
+            if !builders.is_subset(&res.known_builders) {
+                return Err(anyhow!("unknown builders requested"));
+            }
+        }
+        if let Selector::Some(apps) = &generator.apps {
+            if !apps.is_subset(&res.known_apps) {
+                return Err(anyhow!("unknown apps requested"));
+            }
         }
         if let GenerateMode::Local(path) = &generator.mode {
             if let GenerateMode::Local(cached_path) = &res.mode {
